@@ -52,7 +52,11 @@ def run_with_inlining_retry(mod, ctx, chk, pid, tier, seed):
     except AnalysisBroken as e:
         broken = e
     if broken is None and not any((not o.ok) and o.key not in known for o in chk.obls):
-        return chk
+        fp = chk.floor_problem()
+        if fp is None:
+            return chk
+        # a rule lost its instances in the code as written (e.g. the construct moved into a helper): look at the inlined view
+        broken = AnalysisBroken(fp)
     ctx2 = InlinedCtx(ctx)
     chk2 = Check(pid, tier=tier, level=getattr(mod, 'LEVEL', 'other'), seed=seed)
     try:
